@@ -60,6 +60,9 @@ func (r *lisRig) compare(o lisObs) string {
 		got := false
 		if p := r.peer(h); p != nil {
 			got = p.sawClosed()
+			if want && !got && !r.wasAccepted(h) {
+				p.poke() // half-open leftover of the kernel (see peer.poke)
+			}
 		}
 		if got != want {
 			return fmt.Sprintf("peer %s closed=%v, model %v", h, got, want)
@@ -114,12 +117,21 @@ func replayListener(job *Job) (res Result) {
 	r.gateAll(peers)
 
 	parkedAt := map[string]string{}
-	free := false // after a divergence: no more gates, only the environment's steps are performed
-	diverge := func(i int, why string) {
+	// Two degrees of divergence. A state mismatch (the code is not in the state the model is in) is
+	// recorded, but the schedule of the behaviour keeps being forced as long as the goroutines can be
+	// followed from gate to gate: the window the behaviour aims at is still placed exactly. Only when a
+	// goroutine does not show up at the gate the model expects (free), the gates are given up and
+	// only the environment's steps are performed. The verdict comes from judge() in every case.
+	free := false
+	stateDiverged := false
+	note := func(i int, why string) {
 		if res.DivergeAt < 0 {
 			res.DivergeAt = i
 			res.DivergeWhy = why
 		}
+	}
+	diverge := func(i int, why string) {
+		note(i, why)
 		if !free {
 			free = true
 			r.sc.ReleaseAll()
@@ -208,12 +220,23 @@ func replayListener(job *Job) (res Result) {
 		if st.A == "SrvPublish" && i+1 < len(beh.Steps) && beh.Steps[i+1].A == "SrvRecheck" {
 			continue
 		}
-		var why string
-		if !waitUntil(to, func() bool { why = r.compare(st.Obs); return why == "" }) {
-			diverge(i, fmt.Sprintf("after %s: %s", st.A, why))
-			continue
+		if !stateDiverged {
+			var why string
+			if !waitUntil(to, func() bool { why = r.compare(st.Obs); return why == "" }) {
+				note(i, fmt.Sprintf("after %s: %s", st.A, why))
+				stateDiverged = true
+			}
 		}
 		if expectServed != nil {
+			if stateDiverged {
+				// no model state to wait for: the handler is entered or the listener closes the connection.
+				// A peer that has closed the connection itself cannot tell the two apart: not judged.
+				p := r.peer(st.H)
+				if p == nil || p.sawClosed() {
+					continue
+				}
+				waitUntil(to, func() bool { return r.wasServed(st.H) || p.closedByProxy() })
+			}
 			got := r.wasServed(st.H)
 			if *expectServed && !got {
 				res.UnderLimitRefused = append(res.UnderLimitRefused, st.H)
@@ -224,7 +247,7 @@ func replayListener(job *Job) (res Result) {
 				res.find("limit/over-limit-served", "connection "+st.H+" was served although the limit was reached or the listener was stopping")
 			}
 		}
-		if st.A == "Drain1" {
+		if st.A == "Drain1" && !stateDiverged {
 			// Drain has returned: established connections must still relay
 			select {
 			case <-r.drainDone:
